@@ -56,7 +56,8 @@ def one(kind, seed, props, tests):
 
 def main():
     args = sys.argv[1:]
-    kinds = ["reformat", "rename", "noise", "swapadd"]
+    kinds = ["reformat", "rename", "noise", "swapadd", "rename2", "ifswap",
+             "augassign", "all"]
     seeds = 3
     tests = True
     props = []
